@@ -26,6 +26,7 @@ TIMEOUT = {'quick': 300, 'thorough': 3300}
 N_AGENT = {'quick': 700, 'thorough': 50000}
 N_FILE = {'quick': 500, 'thorough': 30000}
 N_KILL = {'quick': 6, 'thorough': 300}
+N_BIG = {'quick': 16, 'thorough': 600}          # scale regime: 33-130 systems next to a collector; flush batches of 128-512 records
 RULE = ('cases: (a) agent collectors: seeded runs of 30 timesteps with a population changed between timesteps by the driver and during '
         'timesteps by scripted systems ordered before (priority >= 0) and after (priority < -1) the collector; per-agent functions '
         'returning a value or None per agent, composite functions returning a dict or None per timestep, includeTimstep on/off, '
@@ -40,7 +41,7 @@ ASSUMPTIONS = ['file clause checked for the default clear_records_on_write=True 
 FLOORS = {'quick': {'agent_steps': 10000, 'records_compared': 5000, 'empty_records_skipped': 470, 'unscheduled_steps': 2000,
                     'mid_step_population_changes': 2000, 'composite_none': 1000, 'composite_dict': 1000, 'shared_composite_dict_calls': 1000, 'history_unchanged_checks': 8000,
                     'file_steps': 4900, 'flushes': 1500, 'conservation_checks': 4900, 'empty_collections': 800, 'opens_observed': 1500,
-                    'killed_children': 20, 'default_priority_runs': 200, 'collectors_attached_late': 100, 'late_collector_twin_runs': 100,
+                    'killed_children': 20, 'default_priority_runs': 200, 'big_many_systems_runs': 4, 'big_flush_batches': 4, 'collectors_attached_late': 100, 'late_collector_twin_runs': 100,
                     'reach:Collectors.AgentCollector.collect': 6500, 'reach:Collectors.FileCollector.execute': 4100,
                     'reach:Collectors.FileCollector.write_records': 1800},
           'thorough': {'agent_steps': 1000000, 'file_steps': 500000, 'killed_children': 1500}}
@@ -439,8 +440,68 @@ def case_kill(ctx, case):
     ctx.distinct(('kill', cfg['write_count'], tuple(cfg['plan']), cfg['steps']))
 
 
+
+def case_big(ctx, case):
+    """Scale regime: (a) a default collector registered after 33-130 ordinary systems must still observe what the LAST of them leaves;
+    (b) file collectors whose flush batches hold 128-512 records (write_count up to 255, several records per collection), long runs."""
+    rng = ctx.rng('big', case['i'])
+    core, col, Val, Churn, NumberedFile = fixtures()
+    if case['i'] % 2 == 0:
+        model = core.Model()
+        counter = core.Agent('counter', model)
+        counter.add_component(Val(counter, model, 0))
+        model.environment.add_agent(counter)
+
+        class Bump(core.System):
+            def execute(self):
+                counter[Val].v += 1
+
+        k = rng.choice([33, 40, 64, 65, 130])
+        for j in range(k):
+            model.systems.add_system(Bump(f'bump{j}', model))           # framework default priority
+        c = col.AgentCollector(model, lambda a: a[Val].v)
+        model.systems.add_system(c)
+        late = rng.randint(0, 2)
+        for j in range(late):
+            model.systems.add_system(Bump(f'late{j}', model))
+        steps = rng.randint(3, 6)
+        for _ in range(steps):
+            model.execute()
+        want = [{'counter': (k + late) * (t + 1)} for t in range(steps)]
+        ctx.ev()
+        ctx.count('big_many_systems_runs')
+        if c.records != want:
+            raise CaseViolation(f'a default collector next to {k + late} default-priority systems did not observe the state those systems leave',
+                                expected=want[:3], observed=c.records[:3])
+    else:
+        install_audit_hook()
+        tmp = tempfile.mkdtemp(prefix='c17b-')
+        path = os.path.join(tmp, 'out.txt')
+        try:
+            wc, per = rng.choice([(255, 1), (127, 2), (63, 4), (63, 8), (31, 8), (99, 3), (255, 2)])
+            model = core.Model()
+            fc = NumberedFile('fc', model, path, write_count=wc, plan=[per])
+            model.systems.add_system(fc)
+            steps = (wc + 1) * rng.choice([1, 2, 3]) + rng.randint(0, 40)
+            for t in range(steps):
+                model.execute()
+                if (t + 1) % (wc + 1) in (0, 1) or t == steps - 1:
+                    text = open(path).read() if os.path.exists(path) else ''
+                    flushed = ((t + 1) // (wc + 1)) * (wc + 1) * per
+                    ctx.ev()
+                    ctx.count('conservation_checks')
+                    if text + ''.join(fc.records) != ''.join(fc.everything) or text != ''.join(fc.everything[:flushed]):
+                        raise CaseViolation(f'file collector with write_count={wc} and {per} record(s) per collection: after {t + 1} collections the '
+                                            f'file holds {len(text)} characters, {len("".join(fc.everything[:flushed]))} were due '
+                                            f'(everything collected: {len("".join(fc.everything))})')
+            ctx.count('big_flush_batches')
+        finally:
+            shutil.rmtree(tmp, ignore_errors=True)
+    ctx.distinct(('big', case['i']))
+
+
 def run_case(ctx, case):
-    {'agent': case_agent, 'file': case_file, 'kill': case_kill, 'late': case_late}[case['kind']](ctx, case)
+    {'agent': case_agent, 'file': case_file, 'kill': case_kill, 'late': case_late, 'big': case_big}[case['kind']](ctx, case)
 
 
 def run(ctx):
@@ -456,6 +517,9 @@ def run(ctx):
     for i in range(N_FILE[ctx.tier]):
         if ctx.mine(i) and not ctx.full():
             ctx.run_case({'kind': 'file', 'i': i}, run_case)
+    for i in range(N_BIG[ctx.tier]):
+        if ctx.mine(i) and not ctx.full():
+            ctx.run_case({'kind': 'big', 'i': i}, run_case)
 
 
 def replay(ctx, case):
